@@ -1,2 +1,136 @@
-(* C04 - placeholder, theorems follow *)
-From Mkdb Require Import Spec.HistObs.
+(* C04 - A crash while the page cache is being flushed loses nothing.
+   Statements only (proofs: Proofs/CrashTorn.v, Proofs/CrashTornInv.v).
+
+   Event `EvTornFlush W` of Model/Engine.v: flushPages dies after writing exactly the dirty pages
+   in W (any subset, any order) and before the header; then InitStorage runs on that file and the
+   complete log. `torn_disk y W` is the file such a flush leaves. The model defines it only when
+   cache and file differ inside leaves alone - no page allocated and no internal node changed
+   since the last completed flush (inserts without split, updates, deletes); any other torn flush
+   has half of a structural change on disk and `torn_disk` is None (step: SFail EUnmodelled).
+
+   FULL STATEMENT: REFUTED for structural flushes. The log is logical for inserts (a record names
+   the root and the key; the split it caused is not logged), so a flush that wrote the left half
+   of a split but not the new right sibling / new root cannot be redone. On the Go side this is
+   the recorded finding F15 (known_findings.json: torn_structural_flush; the check replays it:
+   8 rows, flush, 9th insert, then writing {left leaf, new root} loses rows 5-9, writing {left
+   leaf} alone makes SELECT panic). In the MODEL such a flush is outside `torn_disk`; what is
+   stated here (C04_refuted) is exactly that: a reachable system and a page set for which the
+   model has no torn file - not a stronger claim about the Go code.
+
+   PARTIAL (C04_partial): for EVERY reachable system (any history of statements, flushes,
+   crash-recoveries and crashes inside log appends satisfying C02's `hist_ok`) and EVERY W for
+   which the torn file exists, recovery succeeds and restores every table exactly: the recovered
+   cache equals the pre-crash cache up to dirty flags. Proof = the per-page LSN argument:
+   records whose leaf is in W are skipped (page LSN) or tolerated (key exists, when the skip test
+   looked at an unwritten internal root), records whose leaf is not in W are redone on the old
+   leaf in log order with the original result; records older than the file are inert on the mix.
+
+   FINDING made by this proof (C04_lastkey_stale): the recovered ROW-ID COUNTER can be stale. When
+   an insert record is skipped by the page-LSN test (its leaf - being the root - was written, the
+   header was not), replay `continue`s before `if row.cellID > fs.lastKey`, so lastKey keeps the
+   old header value although the key is in the tree: the next INSERT is refused once with
+   "record already exists". Tables are right (C04_partial), C02's clause "never reuses a row id /
+   later statements behave as on an uncrashed database" is not, after such a torn flush. *)
+From Coq Require Import List NArith ZArith String.
+From Mkdb Require Import Model.Engine Proofs.TreeProofs Proofs.StoreInv Proofs.CrashBase Proofs.CrashPages
+  Proofs.CrashRedo Proofs.CrashLog Proofs.CrashMain Proofs.CrashPrefix Proofs.CrashHist Proofs.CrashTorn
+  Proofs.CrashTornInv.
+Import ListNotations.
+Local Open Scope N_scope.
+
+Theorem C04_partial : forall evs y os W d,
+  hist_ok init_sys evs -> run_events init_sys evs = (SOk y, os) -> torn_disk y W = Some d ->
+  exists y', recover (mkSys d d (wal y)) = Ok y' /\ step y (EvTornFlush W) = (SOk y', None) /\
+             seq (mem y') (mem y) /\ abs (mem y') = abs (mem y).
+Proof.
+  intros evs y os W d H R T.
+  destruct (torn_flush_recovers y W d (ex_intro _ evs (ex_intro _ os (conj H R))) T) as (y' & A & B & C & D).
+  eauto 6.
+Qed.
+Print Assumptions C04_partial.
+
+(* the replay-level core, for any store pair: dsk = the old file (clean pages, C11's invariant, LSN
+   discipline), m = the cache, `old` = records inert on dsk, `new` = records whose in-place replay
+   from dsk gives the cache, each with an LSN above every page LSN at its turn; fd = any mix of
+   the leaves of dsk and m. Replaying the whole log on the mix gives the cache. *)
+Theorem C04_torn_replay : forall W dsk m old new r fd,
+  Good dsk -> fclean (forest dsk) = forest dsk -> NoDup (all_offsets (forest m)) ->
+  LogInv dsk old -> replay dsk new = RCont r -> seq r m -> fresh_run dsk new ->
+  nextFree m = nextFree dsk -> ptRoot m = ptRoot dsk ->
+  merge_forest W (forest dsk) (forest m) = Some fd ->
+  exists g', replay (set_forest dsk fd) (old ++ new) = RCont g' /\ seq g' m.
+Proof. exact torn_recover. Qed.
+Print Assumptions C04_torn_replay.
+
+(* ---- full statement ---- *)
+Definition C04_full_statement : Prop :=
+  forall evs y os W,
+  Forall (fun ev => match ev with EvStmt _ | EvFlush | EvCrash | EvTornFlush _ => True | _ => False end) evs ->
+  run_events init_sys evs = (SOk y, os) ->
+  exists y', step y (EvTornFlush W) = (SOk y', None) /\ abs (mem y') = abs (mem y).
+
+Local Open Scope string_scope.
+Definition ins (t : string) (i : nat) : event := EvStmt (SInsert t [] [[VInt (Z.of_nat i)]]).
+
+Ltac hist_tac :=
+  vm_compute;
+  repeat (first [ exact I | split | (intros; discriminate) | reflexivity ]).
+
+(* refutation witness, in the model's terms: 8 rows, flush, the 9th insert splits the leaf (pages
+   12288 = old leaf, 16384 = new right leaf, 20480 = new root, 4096 = sys_pages leaf are dirty);
+   no subset of a structural flush is a modelled torn file, e.g. "old leaf and new root written" *)
+Definition ex_struct : list event :=
+  EvStmt (SCreateTable "t" [mkColDef "a" STNumeric]) :: map (ins "t") (List.seq 0 8) ++ [EvFlush; ins "t" 8].
+
+Example C04_refuted :
+  exists y os W, run_events init_sys ex_struct = (SOk y, os) /\ hist_ok init_sys ex_struct /\
+                 W = [12288; 20480]%N /\ torn_disk y W = None /\
+                 step y (EvTornFlush W) = (SFail EUnmodelled, None) /\
+                 nextFree (disk y) <> nextFree (mem y).
+Proof.
+  destruct (run_events init_sys ex_struct) as [fin os] eqn:E.
+  vm_compute in E. inversion E; subst. eexists _, _, _. split; [reflexivity|].
+  split; [hist_tac|]. split; [reflexivity|]. split; [vm_compute; reflexivity|].
+  split; [vm_compute; reflexivity | vm_compute; discriminate].
+Qed.
+
+(* ---- non-vacuity of the partial theorem: two tables (t with an internal root: 11 rows; u a
+   single leaf), flush, then an insert, an update and a delete on t and an insert on u; the dirty
+   leaves are t's rightmost leaf (16384), t's first leaf (12288) and u's leaf; W = one of them ---- *)
+Definition ex_inplace : list event :=
+  EvStmt (SCreateTable "t" [mkColDef "a" STNumeric]) :: map (ins "t") (List.seq 0 11) ++
+  [EvStmt (SCreateTable "u" [mkColDef "b" STNumeric]); ins "u" 1; EvFlush;
+   ins "t" 50;
+   EvStmt (SUpdate "t" [("a", XLit (VInt 7))] (Some (EPred (XCol (mkCol "" "a")) CEq (XLit (VInt 2)))));
+   EvStmt (SDelete "t" (Some (EPred (XCol (mkCol "" "a")) CEq (XLit (VInt 10)))));
+   ins "u" 2].
+
+Example C04_nonvacuous :
+  exists y os, run_events init_sys ex_inplace = (SOk y, os) /\ hist_ok init_sys ex_inplace /\
+    abs (disk y) <> abs (mem y) /\
+    forall W, In W [[]; [12288]; [16384]; [12288; 16384]; [16384; 24576]; [12288; 16384; 24576]]%N ->
+      exists d, torn_disk y W = Some d.
+Proof.
+  destruct (run_events init_sys ex_inplace) as [fin os] eqn:E.
+  vm_compute in E. inversion E; subst. eexists _, _. split; [reflexivity|].
+  split; [hist_tac|]. split; [vm_compute; discriminate|].
+  intros W HW. repeat (destruct HW as [<-|HW]; [eexists; vm_compute; reflexivity|]). destruct HW.
+Qed.
+
+(* ---- the finding: after an in-place torn flush the row-id counter can be stale ---- *)
+Definition ex_stale : list event :=
+  [EvStmt (SCreateTable "t" [mkColDef "a" STNumeric]); ins "t" 1; EvFlush; ins "t" 2].
+
+Example C04_lastkey_stale :
+  exists y os y', run_events init_sys ex_stale = (SOk y, os) /\ hist_ok init_sys ex_stale /\
+    step y (EvTornFlush [12288]%N) = (SOk y', None) /\
+    abs (mem y') = abs (mem y) /\                       (* tables restored (C04_partial) *)
+    lastKey (mem y) = 12 /\ lastKey (mem y') = 11 /\    (* but the counter is the old header's *)
+    e_out (run_stmt (mem y) (SInsert "t" [] [[VInt 3]])) = OOk 1 /\
+    e_out (run_stmt (mem y') (SInsert "t" [] [[VInt 3]])) = OErr EKeyExists.
+Proof.
+  destruct (run_events init_sys ex_stale) as [fin os] eqn:E.
+  vm_compute in E. inversion E; subst. eexists _, _, _. split; [reflexivity|].
+  split; [hist_tac|]. split; [vm_compute; reflexivity|].
+  repeat split; vm_compute; reflexivity.
+Qed.
